@@ -1,5 +1,5 @@
 import Traph.Step
-/-! C16 — the four long-running requests as explicit coroutine state machines, with `should_yield`
+/-! C16 — the long-running requests (all eleven `*_iter` generators) as explicit coroutine state machines, with `should_yield`
     always true. A *section* is what runs between two `yield`s; `resume` runs one section. The machines
     hold the same stale node copies the Python generators hold across a yield (a traversal pushes the
     pointers of the copy it read *before* it yielded). -/
@@ -219,6 +219,328 @@ def netResume : Nat → State → NetSt → NetSt × CoOut
                     pointers := if head ≠ 0 then n.pointers ++ [(cur, head)] else n.pointers }, .yielded)
         else netResume fuel s { n with stack := dfsWePush b we cur c rest }
 
+/-! ### the seven remaining generators (read-only queries)
+
+    They share three traversal cursors. A cursor is the suspended Python traversal generator: the stack of
+    block numbers, and `pend` = the node object it yielded last together with the locals computed before
+    the `yield` (the children of that node are pushed from this *stale* copy when the traversal is resumed).
+    `next` runs the traversal to its next `yield`. -/
+
+/-- `weDfsPush` with the `max_depth` cut of `webentity_dfs_iter` -/
+def weDfsPushD (maxDepth : Option Nat) (startBlock : Nat) (b : Nat) (lru cur : Bytes) (level : Nat) (c : Cell)
+    (stack : List (Nat × Bytes × Nat)) : List (Nat × Bytes × Nat) :=
+  let relevant := b = startBlock || c.we = 0
+  let stack := if b ≠ startBlock then
+      (let st := if c.right ≠ 0 then (c.right, lru, level) :: stack else stack
+       if c.left ≠ 0 then (c.left, lru, level) :: st else st) else stack
+  if relevant && c.child ≠ 0 then
+    (match maxDepth with
+     | some d => if level ≥ d then stack else (c.child, cur, level + 1) :: stack
+     | none => (c.child, cur, level + 1) :: stack)
+  else stack
+
+/-- what `next()` on a traversal returns -/
+inductive CurOut where
+  | item (b : Nat) (lru : Bytes) (c : Cell)     -- the node object (block, copy read at pop time) and its LRU
+  | stop
+  | fail (e : Err)
+deriving Repr, Inhabited
+
+/-- `for prefix in prefixes: starting_node = lru_node(prefix) …; for node, lru in webentity_dfs_iter(starting_node, prefix, max_depth)`,
+    suspended -/
+structure WeCur where
+  prefixes : List Bytes := []
+  depth    : Option Nat := none
+  start    : Nat := 0
+  stack    : List (Nat × Bytes × Nat) := []
+  pend     : Option (Nat × Bytes × Bytes × Nat × Cell) := none    -- (block, lru prefix, current lru, level, stale copy)
+deriving Repr, Inhabited, DecidableEq
+
+def WeCur.next : Nat → State → WeCur → WeCur × CurOut
+  | 0, _, w => (w, .fail (.other "fuel"))
+  | fuel + 1, s, w =>
+    let stack := match w.pend with
+      | some (b, lru, cur, level, c) => weDfsPushD w.depth w.start b lru cur level c w.stack
+      | none => w.stack
+    let w := { w with stack := stack, pend := none }
+    match w.stack with
+    | [] =>
+      (match w.prefixes with
+       | [] => (w, .stop)
+       | pf :: more =>
+         match s.lruNode (lruIter pf) with
+         | none => (w, .fail .traph)
+         | some n => WeCur.next fuel s { w with prefixes := more, start := n, stack := [(n, lruDirname pf, 0)] })
+    | (b, lru, level) :: rest =>
+      let c := s.cell b
+      let cur := lru ++ s.stemAt b
+      if b = w.start || c.we = 0 then
+        ({ w with stack := rest, pend := some (b, lru, cur, level, c) }, .item b cur c)
+      else WeCur.next fuel s { w with stack := weDfsPushD w.depth w.start b lru cur level c rest }
+
+/-- enough for one `next()`: every iteration pops a block or opens a prefix -/
+def WeCur.fuel (s : State) (w : WeCur) : Nat := (s.trie.size + 2) * (w.prefixes.length + 2) + w.stack.length + 2
+
+/-- `dfs_iter(starting_node, prefix, skip_childless_paths)` under the same loop over prefixes -/
+structure DfsCur where
+  prefixes : List Bytes := []
+  skip     : Bool := false
+  start    : Nat := 0
+  stack    : List (Nat × Bytes) := []
+  pend     : Option (Nat × Bytes × Bytes × Cell) := none          -- (block, lru prefix, current lru, stale copy)
+deriving Repr, Inhabited, DecidableEq
+
+def dfsPushSkip (skip : Bool) (startBlock : Nat) (b : Nat) (lru cur : Bytes) (c : Cell)
+    (stack : List (Nat × Bytes)) : List (Nat × Bytes) :=
+  let stack := if b ≠ startBlock then
+      (let st := if c.right ≠ 0 then (c.right, lru) :: stack else stack
+       if c.left ≠ 0 then (c.left, lru) :: st else st) else stack
+  if skip && c.flags.noChild then stack
+  else if c.child ≠ 0 then (c.child, cur) :: stack else stack
+
+def DfsCur.next : Nat → State → DfsCur → DfsCur × CurOut
+  | 0, _, w => (w, .fail (.other "fuel"))
+  | fuel + 1, s, w =>
+    let stack := match w.pend with
+      | some (b, lru, cur, c) => dfsPushSkip w.skip w.start b lru cur c w.stack
+      | none => w.stack
+    let w := { w with stack := stack, pend := none }
+    match w.stack with
+    | [] =>
+      (match w.prefixes with
+       | [] => (w, .stop)
+       | pf :: more =>
+         match s.lruNode (lruIter pf) with
+         | none => (w, .fail .traph)
+         | some n => DfsCur.next fuel s { w with prefixes := more, start := n, stack := [(n, lruDirname pf)] })
+    | (b, lru) :: rest =>
+      let c := s.cell b
+      let cur := lru ++ s.stemAt b
+      ({ w with stack := rest, pend := some (b, lru, cur, c) }, .item b cur c)
+
+def DfsCur.fuel (_s : State) (w : DfsCur) : Nat := w.prefixes.length + 3
+
+/-! #### get_webentity_crawled_pages_iter: one yield per PAGE node of `webentity_page_nodes_iter` -/
+
+structure CrawledSt where
+  cur   : WeCur := {}
+  pages : List (Bytes × Bool) := []
+deriving Repr, Inhabited, DecidableEq
+
+def crawledResume : Nat → State → CrawledSt → CrawledSt × CoOut
+  | 0, _, q => (q, .failed (.other "fuel"))
+  | fuel + 1, s, q =>
+    match q.cur.next (q.cur.fuel s) s with
+    | (w, .fail e) => ({ q with cur := w }, .failed e)
+    | (w, .stop) => ({ q with cur := w }, .done (.pages q.pages))
+    | (w, .item _ lru c) =>
+      if c.flags.page then
+        ({ cur := w, pages := if c.flags.crawled then q.pages ++ [(lru, true)] else q.pages }, .yielded)
+      else crawledResume fuel s { q with cur := w }
+
+/-! #### get_webentity_most_linked_pages_iter: one yield per node of the webentity DFS (page or not); the
+    in-list of a page is counted in the section that popped it -/
+
+structure MostSt where
+  cur   : WeCur := {}
+  k     : Nat := 10
+  count : Nat := 0
+  heap  : List (Nat × Nat × Bytes) := []
+deriving Repr, Inhabited, DecidableEq
+
+def mostResume (s : State) (q : MostSt) : MostSt × CoOut :=
+  match q.cur.next (q.cur.fuel s) s with
+  | (w, .fail e) => ({ q with cur := w }, .failed e)
+  | (w, .stop) => ({ q with cur := w }, .done (.ranked (q.heap.reverse.map (fun x => (x.2.2, x.1)))))
+  | (w, .item _ lru c) =>
+    if c.flags.page then
+      ({ q with cur := w, count := q.count + 1,
+                heap := State.boundedPush q.k q.heap (s.indegreeEntries c.inn, q.count + 1, lru) }, .yielded)
+    else ({ q with cur := w }, .yielded)
+
+/-! #### get_webentity_child_webentities_iter: one yield per node of `dfs_iter(skip_childless_paths=True)` -/
+
+structure ChildSt where
+  cur   : DfsCur := { skip := true }
+  weid  : Nat := 0
+  weids : List Nat := []                -- the set, kept sorted
+deriving Repr, Inhabited, DecidableEq
+
+def childResume (s : State) (q : ChildSt) : ChildSt × CoOut :=
+  match q.cur.next (q.cur.fuel s) s with
+  | (w, .fail e) => ({ q with cur := w }, .failed e)
+  | (w, .stop) => ({ q with cur := w }, .done (.nats q.weids))
+  | (w, .item _ _ c) =>
+    ({ q with cur := w, weids := if c.we ≠ 0 && c.we ≠ q.weid then State.insertSorted c.we q.weids else q.weids }, .yielded)
+
+/-! #### get_webentity_pagelinks_iter: one yield per entry of the out-list Counter, then one per entry of the
+    in-list Counter, of every page; no yield for a node that is not a page. `weighted_link_nodes_iter` reads the
+    whole list when its first item is asked for; the in-list is read, from the head pointer of the page's copy
+    taken at pop time, when the out-list loop is over. -/
+
+structure PlSt where
+  cur     : WeCur := {}
+  weid    : Nat := 0
+  incIn   : Bool := false
+  incInt  : Bool := true
+  incOut  : Bool := false
+  node    : Option (Bytes × Cell) := none            -- the page in progress: its LRU, the copy read at pop time
+  outQ    : List (Nat × Nat) := []                   -- entries of the out-list Counter still to come
+  innTodo : Bool := false                            -- the in-list loop of `node` has not started
+  innQ    : List (Nat × Nat) := []
+  links   : List State.PageLink := []
+deriving Repr, Inhabited, DecidableEq
+
+def plResume : Nat → State → PlSt → PlSt × CoOut
+  | 0, _, q => (q, .failed (.other "fuel"))
+  | fuel + 1, s, q =>
+    if !q.incInt && !q.incOut && !q.incIn then (q, .failed .traph) else
+    let lru := (q.node.map (·.1)).getD []
+    match q.outQ with
+    | (t, w) :: more =>
+      let tWe := s.windupWe t
+      let links := if (q.incOut && tWe ≠ q.weid) || (q.incInt && tWe = q.weid)
+                   then q.links ++ [(lru, s.windup t, w)] else q.links
+      ({ q with outQ := more, links := links }, .yielded)
+    | [] =>
+      if q.innTodo then
+        let c := (q.node.map (·.2)).getD {}
+        plResume fuel s { q with innTodo := false, innQ := if c.inn ≠ 0 && q.incIn then s.weighted c.inn else [] }
+      else
+        match q.innQ with
+        | (t, w) :: more =>
+          let links := if s.windupWe t ≠ q.weid then q.links ++ [(s.windup t, lru, w)] else q.links
+          ({ q with innQ := more, links := links }, .yielded)
+        | [] =>
+          match q.cur.next (q.cur.fuel s) s with
+          | (w, .fail e) => ({ q with cur := w }, .failed e)
+          | (w, .stop) => ({ q with cur := w }, .done (.links q.links))
+          | (w, .item _ l c) =>
+            if c.flags.page then
+              plResume fuel s { q with cur := w, node := some (l, c), innTodo := true,
+                                       outQ := if c.out ≠ 0 && (q.incOut || q.incInt) then s.weighted c.out else [] }
+            else plResume fuel s { q with cur := w, node := none }
+
+/-! #### get_webentity_outlinks_iter / get_webentity_inlinks_iter: one yield per target of
+    `deduped_link_nodes_iter`, which is lazy: suspended, it holds the stub it read last (its `previous`
+    pointer) and `already_seen`. -/
+
+/-- run `deduped_link_nodes_iter` to its next `yield`: from the stub at `p` (0: the list is over) back to the
+    first target not seen yet; returns it with the pointer to go on from and the enlarged `already_seen` -/
+def State.dedupNext (s : State) : Nat → Nat → List Nat → Option (Nat × Nat × List Nat)
+  | 0, _, _ => none
+  | fuel + 1, p, seen =>
+    if p = 0 then none else
+    match s.links[p]? with
+    | none => none
+    | some st => if seen.contains st.target then s.dedupNext fuel st.prev seen
+                 else some (st.target, st.prev, seen ++ [st.target])
+
+structure CitedSt where
+  cur        : WeCur := {}
+  out        : Bool := true
+  lnk        : Option (Nat × List Nat) := none       -- inside the link loop: (next stub to read, already_seen)
+  doneBlocks : List Nat := []
+  weids      : List Nat := []                        -- the set, kept sorted; 0 is the `None` member
+deriving Repr, Inhabited, DecidableEq
+
+def citedResume : Nat → State → CitedSt → CitedSt × CoOut
+  | 0, _, q => (q, .failed (.other "fuel"))
+  | fuel + 1, s, q =>
+    match q.lnk with
+    | some (p, seen) =>
+      (match s.dedupNext (s.links.size + 1) p seen with
+       | none => citedResume fuel s { q with lnk := none }
+       | some (t, p', seen') =>
+         if q.doneBlocks.contains t then ({ q with lnk := some (p', seen') }, .yielded)
+         else ({ q with lnk := some (p', seen'), doneBlocks := q.doneBlocks ++ [t],
+                        weids := State.insertSorted (s.windupWe t) q.weids }, .yielded))
+    | none =>
+      match q.cur.next (q.cur.fuel s) s with
+      | (w, .fail e) => ({ q with cur := w }, .failed e)
+      | (w, .stop) => ({ q with cur := w }, .done (.nats q.weids))
+      | (w, .item _ _ c) =>
+        let head := if q.out then c.out else c.inn
+        if c.flags.page && head ≠ 0 then citedResume fuel s { q with cur := w, lnk := some (head, []) }
+        else citedResume fuel s { q with cur := w }
+
+/-! #### get_webentities_links_slow_iter: one yield per Counter entry that ADDS to the graph (the three
+    `continue`s skip the yield); the Counter of a page is read in the section that popped the page -/
+
+structure SlowSt where
+  out      : Bool := true
+  auto     : Bool := false
+  started  : Bool := false
+  stack    : List (Nat × Nat) := []
+  pend     : Option (Nat × Nat × Nat × Cell) := none      -- (block, incoming we, current we, stale copy)
+  cache    : List (Nat × Nat) := []                        -- page_to_webentity
+  curSrc   : Nat := 0
+  curList  : List (Nat × Nat) := []                        -- Counter entries still to come
+  graph    : List State.NetRow := []
+deriving Repr, Inhabited, DecidableEq
+
+def slowResume : Nat → State → SlowSt → SlowSt × CoOut
+  | 0, _, n => (n, .failed (.other "fuel"))
+  | fuel + 1, s, n =>
+    match n.curList with
+    | (t, w) :: more =>
+      let (tWe, cache) := match dictGet? n.cache t with
+        | some x => (x, n.cache)
+        | none => let x := s.windupWe t; (x, if x = 0 then n.cache else dictSet n.cache t x)
+      if tWe = 0 then slowResume fuel s { n with curList := more, cache := cache }
+      else if !n.auto && n.curSrc = tWe then slowResume fuel s { n with curList := more, cache := cache }
+      else ({ n with curList := more, cache := cache,
+                     graph := State.netTouch n.graph n.curSrc (fun r => { r with targets := State.counterAdd r.targets tWe w }) },
+            .yielded)
+    | [] =>
+      let n := if n.started then n else { n with started := true, stack := if s.trie.size ≤ 1 then [] else [(1, 0)] }
+      let stack := match n.pend with
+        | some (b, we, cur, c) => dfsWePush b we cur c n.stack
+        | none => n.stack
+      let n := { n with stack := stack, pend := none }
+      match n.stack with
+      | [] => (n, .done (.net n.graph))
+      | (b, we) :: rest =>
+        let c := s.cell b
+        let cur := if c.we ≠ 0 then c.we else we
+        let head := if n.out then c.out else c.inn
+        if c.flags.page && head ≠ 0 && cur ≠ 0 then
+          slowResume fuel s { n with stack := rest, pend := some (b, we, cur, c), cache := dictSet n.cache b cur,
+                                     curSrc := cur, curList := s.weighted head }
+        else slowResume fuel s { n with stack := dfsWePush b we cur c rest }
+
+/-! #### the seven under one roof -/
+
+inductive QSt where
+  | crawled (q : CrawledSt)
+  | mostLinked (q : MostSt)
+  | children (q : ChildSt)
+  | pagelinks (q : PlSt)
+  | cited (q : CitedSt)
+  | netSlow (q : SlowSt)
+deriving Repr, Inhabited, DecidableEq
+
+/-- iterations one section can take: every one pops a block, opens a prefix, ends a list or consumes an entry -/
+def qFuel (s : State) (prefixes extra : Nat) : Nat := 2 * (s.trie.size + 2) * (prefixes + 2) + extra + 4
+
+/-- one section of a read-only generator: a function of the index, which it cannot change -/
+def QSt.resume (s : State) : QSt → QSt × CoOut
+  | .crawled q => let (q1, o) := crawledResume (qFuel s q.cur.prefixes.length q.cur.stack.length) s q; (.crawled q1, o)
+  | .mostLinked q => let (q1, o) := mostResume s q; (.mostLinked q1, o)
+  | .children q => let (q1, o) := childResume s q; (.children q1, o)
+  | .pagelinks q => let (q1, o) := plResume (qFuel s q.cur.prefixes.length q.cur.stack.length) s q; (.pagelinks q1, o)
+  | .cited q => let (q1, o) := citedResume (qFuel s q.cur.prefixes.length q.cur.stack.length) s q; (.cited q1, o)
+  | .netSlow q => let (q1, o) := slowResume ((s.trie.size + 2) * (s.links.size + 3) + q.stack.length + q.curList.length + 4) s q; (.netSlow q1, o)
+
+/-- drain a read-only generator on a fixed index (`run_iterator`) -/
+def QSt.drain (s : State) : Nat → QSt → Ans
+  | 0, _ => .err (.other "fuel")
+  | n + 1, q =>
+    match q.resume s with
+    | (q1, .yielded) => QSt.drain s n q1
+    | (_, .done a) => a
+    | (_, .failed e) => .err e
+
 /-! ### the scheduler's view -/
 
 inductive CoSt where
@@ -226,6 +548,7 @@ inductive CoSt where
   | rule (r : RuleSt)
   | pages (p : PagesSt)
   | net (n : NetSt)
+  | query (q : QSt)
   | finished
 deriving Repr, Inhabited
 
@@ -235,6 +558,7 @@ def CoSt.resume (s : State) : CoSt → State × CoSt × CoOut
   | .rule r => let (s1, r1, o) := ruleResume s r; (s1, match o with | .yielded => .rule r1 | _ => .finished, o)
   | .pages p => let (p1, o) := pagesResume (s.trie.size + p.prefixes.length + 2) s p; (s, match o with | .yielded => .pages p1 | _ => .finished, o)
   | .net n => let (n1, o) := netResume (s.trie.size + s.links.size + n.pointers.length + 3) s n; (s, match o with | .yielded => .net n1 | _ => .finished, o)
+  | .query q => let (q1, o) := q.resume s; (s, match o with | .yielded => .query q1 | _ => .finished, o)
   | .finished => (s, .finished, .failed (.other "StopIteration"))
 
 /-- a schedule names which generator runs its next section -/
